@@ -350,7 +350,8 @@ SPECS += [
      "(popSize : Nat) : {e} = popSize", "rfl"),
     ("ea_merge", ["C06", "C07"], EVO, "EvolutionaryAlgorithm._advance", ("assign", "pop", 1), MERGE_VM,
      "(pop off : List (IndM α)) : mergeCandidates pop off = {e}", "rfl"),
-    ("ea_quota", ["C06", "C07"], EVO, "EvolutionaryAlgorithm._advance", ("call_kw", "self.pop", 0, "n_survive"), MERGE_VM,
+    ("ea_quota", ["C06", "C07"], EVO, "EvolutionaryAlgorithm._advance", ("call_kw", "self.pop", 0, "n_survive"),
+     {"self.pop_size": "popSize"},     # (the generic base class may create any number of offspring: only pop_size is the quota)
      "(popSize : Nat) : {e} = popSize", "rfl"),
 ]
 # extra selections needed by multi-term statements: name -> [(placeholder, selector, vm)]
